@@ -13,7 +13,10 @@ CLAIMS = {
               "code says now; the same statement is proved over a hand model (Properties/C19.v) that is tied to the code by evaluating "
               "code, hand model, generated model and the executable specification `spec_choice` inside Coq (vm_compute) on the complete grid "
               "{+-2^k, +-2^k+-1 : k<=64} u {literals of the function +-1} squared (tie W2, ~79 000 points). The grid is also the search space for "
-              "a failing input when a proof breaks. IndxIO.format/dtype word-size tables are generated and proved the same way."),
+              "a failing input when a proof breaks. IndxIO.format/dtype word-size tables are generated and proved the same way. The three CALLERS the property names "
+              "(dense output of to_array with and without a mapping, collapsed output, INDX coordinate words) are tied as well: on 600 (quick) / 3 000 (thorough) generated "
+              "indexes, mappings, precedence lists and entries dicts built from boundary values the dtype / word size the real caller selected is compared, inside Coq, "
+              "with spec_choice (max, min) of the values that caller has to store (collapsed: by value, since its working dtype is internal)."),
         note=("Trusted: Coq kernel + vm_compute; translate_int.py (ast subset, fail-closed; falls back to W2 only); the grid harness. "
               "Closed under the global context (no axioms). Arguments are Python ints; callers are covered under C01/C06/C10."),
         technique="Coq proof over model generated from source (ast translator) + in-Coq grid correspondence",
@@ -87,17 +90,89 @@ CLAIMS["C09"] = dict(
 
 CLAIMS["C10"] = dict(
     category="proof",
-    text=("Theorems le_roundtrip and C10_roundtrip (Properties/C10.v) over byte-level models of IndxIO.save / IndxIO.load (Indx/Save.v, Load.v; "
-          "word size through the fit_dtype model of C19): for every entries dict with uniform arity 1..255, coordinates and common in [0, 2^63), "
-          "row ids in [0, 2^32) (increasing or not), any number of entries incl. none and empty row-id arrays, load (save es common) returns exactly "
-          "(es, common, uint32). Tie W2 on every run: generated dicts (arity 1..4, 0..6 entries, coordinate x common magnitude classes "
-          "<=255/<=65535/<2^32/<2^63 independently, row-id arrays of length 0..6 with boundary values) and real indexes built by from_array are "
-          "saved and loaded by the REAL IndxIO on real files; the bytes written and the loaded parts are compared inside Coq with the model and "
-          "the input; for reachable indexes also iindex(...) == original and validate()."),
+    text=("Theorems le_roundtrip, C10_roundtrip and load_wf (Properties/C10.v) over byte-level models of IndxIO.save / IndxIO.load "
+          "(Indx/Save.v, Load.v; word size through the fit_dtype model of C19): for every entries dict with uniform arity 1..255, coordinates "
+          "and common in [0, 2^63), row ids in [0, 2^32) (increasing or not), any number of entries incl. none and empty row-id arrays, "
+          "load (save es common) returns exactly (es, common, uint32), same order; and for every well-formed index (WF of C07) within the "
+          "format's limits (storable) the loaded parts rebuild THE SAME index, which is WF. Tie W2 on every run: generated dicts (arity 1..4, "
+          "0..6 entries, coordinate x common magnitude classes <=255/<=65535/<2^32/<2^63 independently, row-id arrays of length 0..6 with boundary "
+          "values) and real iindex objects - from_array results and every well-formed unsigned state reached by the C06 operation-history "
+          "generator (1-D/2-D/3-D, also re-labelled to 2/4/8-byte values) - are saved and loaded by the REAL IndxIO on real files; bytes written, "
+          "loaded parts, wf_b/storable_b of the real state and the rebuilt index are compared inside Coq; Python oracle: data equality, "
+          "plain-int / uint32 types, rebuilt == original, validate(True)."),
     note=("Trusted: Coq kernel + vm_compute; struct.pack/unpack, ndarray.tofile, mmap and NumPy dtype views are modelled (little-endian words), not "
-          "verified; totals below 2^60 row ids. Closed under the global context."),
+          "verified; totals below 2^60 row ids; the shape is kept by the caller (it is not in the file). Closed under the global context."),
     technique="Coq proof of the byte-level round trip + in-Coq correspondence of real files and loads",
     design_ref="DESIGN.md 4/C10")
+
+CLAIMS["C11"] = dict(
+    category="proof",
+    text=("Theorems save_is_layout, save_w_is_layout, narrowest, size_field, load_any_width, load_any_width_dims (Properties/C11.v): Indx/Layout.v "
+          "is the format SPECIFICATION written from the class docstring alone (encoder layout_d d0 iw rw parameterised by both word sizes + strict "
+          "decoder); the model of save writes exactly layout (narrowest word) 4, the recorded size equals the payload length for ANY dict and any "
+          "total (no wrap at 2^30 / 2^32), the narrowest documented word is what fit_dtype picks, and the model of load recovers the data from every "
+          "specification file with admissible word sizes (incl. sizes save never picks, totals beyond the row-id word's own range, any recorded dims "
+          "for an empty index). Tie W2 on every run, inside Coq: (a) real save bytes = layout = model save, decoder recovers the data; (b) real load "
+          "on struct-encoded files of every admissible (iw, rw) in {1,2,4,8}^2 and on run-structured files with >255 / >65535 row ids at 1-/2-byte "
+          "words; (c) sparse-file saves with duck-typed arrays for totals around 2^30..2^33: the 16 header bytes = model. Oracle: a struct-based "
+          "encoder/decoder written from the docstring."),
+    note=("Trusted as C10; (c) relies on save touching row-id arrays only through len/.dtype/tofile. The dims byte of an empty index is pinned to 0 "
+          "on the saver side (unspecified by the docstring). Closed under the global context."),
+    technique="Coq proof that the writer model equals an independent layout specification and the reader model decodes every specification file + in-Coq byte correspondence",
+    design_ref="DESIGN.md 4/C11")
+
+CLAIMS["C12"] = dict(
+    category="proof",
+    text=("Theorems C12_torn, C12_torn_rejected, C12_torn_any_writer (Properties/C12.v; core lemma Torn.torn_sized: any file "
+          "magic ++ version ++ le64(|P|) ++ P): for every ok dict and EVERY k < length of the saved file, the model of load on the first k bytes is "
+          "an error, at stage torn_stage k (magic / version / short size word / mmap of 16+size bytes); the same for every specification file of "
+          "any admissible word sizes, whoever wrote it. Tie W2, exhaustive over cut points: every generated file (C10 generator, from_array "
+          "indexes, and 2-3 independent encodings each) is cut with os.truncate at EVERY k and loaded by the real IndxIO.load (~200 000 loads quick, "
+          "3.4 M thorough); the refusal stage per k is compared inside Coq with the model; additionally the real save is torn for real (forked child "
+          "under RLIMIT_FSIZE = k) for a sample of dicts at every k: what is left is the k-byte prefix and is refused. Oracle: load raised."),
+    note=("Trusted as C10 + the OS fact that mmap refuses a length beyond EOF (observed on every run) + sequential writing (observed by the "
+          "RLIMIT_FSIZE stream on the current code only). The exception-to-stage mapping is message based. Closed under the global context."),
+    technique="Coq proof for every cut point + exhaustive real truncation of real files with in-Coq stage correspondence + real torn writes under RLIMIT_FSIZE",
+    design_ref="DESIGN.md 4/C12")
+
+CLAIMS["C16"] = dict(
+    category="proof",
+    text=("Theorems of Properties/C16.v over a shared-store model in which a task is the list of atomic writes of one sub-cube and a schedule is "
+          "ANY merge of the tasks' write lists (this contains every pool size, chunking and interleaving): interleave_serial (pairwise disjoint "
+          "footprints => every interleaving leaves the store as the serial order does), footprint_disjoint + subcube_coords_distinct (blocks selected "
+          "by the distinct flattened coordinates that itertools.product hands out are disjoint), C16 / C16_pool (for every cube, every "
+          "interleaving of the tasks' events, reduce of the final store = the serial result), passing_case_all_schedules (a configuration that passes "
+          "the boolean checkers is covered for EVERY schedule, not only those run), and overlapping_tasks_refuted / counter_lost_update_refuted "
+          "(the model is not schedule-independent by construction: overlapping writes and the excluded diagnostics counter do race). "
+          "PARTIAL in the sense of the brief: what the model cannot exhibit is validated on every run on the real code - (i) each real sub-cube task is "
+          "run ALONE on regions pre-filled with garbage (twice): it writes only inside its own block and its writes do not depend on the garbage "
+          "(item-assignment log, footprints_ok_b inside Coq); (ii) the pool forced on (cube.parallel, pool_class / patched ThreadPool) under a "
+          "deterministic seeded scheduler switching at every bytecode of catii frames, pool sizes 1..16, both cube types, all aggregates of C03 and C18 "
+          "singly and together: outputs bit-for-bit equal to serial (60 cubes x ~21 schedules quick; 200 x 61 thorough) plus real ThreadPool runs "
+          "under switch interval 1e-6; the observed write order of one logged run per cube is replayed in the model inside Coq."),
+    note=("Partial: GIL atomicity of one NumPy item/slice assignment is ASSUMED (the scheduler never preempts C code; only the real-thread runs speak to it); "
+          "multiprocessing.pool.ThreadPool is modelled (harness/sched.py DetPool, Conc/Pool.v) and trusted; the footprint of the real tasks is validated per run, "
+          "not proved. Closed under the global context."),
+    technique="Coq proof over an interleaving/shared-store model (all merges of the tasks' write lists) + run-time footprint validation + seeded bytecode-level deterministic scheduler and real thread pool",
+    design_ref="DESIGN.md 4/C16")
+
+CLAIMS["C20"] = dict(
+    category="proof",
+    text=("Theorems of Properties/C20.v over a state-machine model of calculate with a raising-callback oracle, the pool's chunking and the mutable "
+          "diagnostic fields threaded as state: serial_outcome (stops at the least raising invocation i, consulted i+1 times; otherwise returns, each "
+          "sub-cube consulted once), pooled_outcome / pooled_no_raise / pooled_task_raises / pooled_invocation_raises (for EVERY chunking, schedule and "
+          "arrival order of failures: returns iff nothing raises, else re-raises one of the raised exceptions), threadpool_chunking, reuse_serial / "
+          "reuse_pooled / reuse (whatever an interrupted call left behind, a following calculate on the same objects equals a fresh one), "
+          "reuse_refuted_if_regions_cached (the theorem has content), pooled_non_exception_hangs (the model exhibits known finding K1). Tie W2, "
+          "exhaustive fault enumeration on the real code on every run: k = 1..8 sub-cubes, both cube types; serial: a raise at every single invocation "
+          "index; pooled: every subset of raising tasks for k <= 6 under the deterministic scheduler (bytecode and task granularity) plus the real "
+          "ThreadPool; observed: exception identity, consultation log, and the result of a following uninterrupted calculate on the SAME cube and "
+          "aggregate objects against a fresh evaluation; all compared with the model inside Coq (~1 900 cases quick, ~15 000 thorough)."),
+    note=("ThreadPool.map is modelled (trusted); schedules of the pooled runs are sampled, fault subsets are complete for k <= 6. The pooled theorems hold for "
+          "interrupts that are Exceptions; for a BaseException that is not an Exception the real pool hangs: recorded as KNOWN finding K1 "
+          "(known_findings.json), printed as KNOWN-FINDING on every run. Closed under the global context."),
+    technique="Coq proof over an outcome state machine (all chunkings / schedules / arrival orders) + exhaustive fault-set enumeration on the real code compared inside Coq",
+    design_ref="DESIGN.md 4/C20")
 
 CLAIMS["C18"] = dict(
     category="proof",
